@@ -257,7 +257,7 @@ CLAIMED = {
         "Rust string given to the writer is flagged and read back unchanged.  Correspondence: all 256 bytes in both "
         "modes, adversarial invalid UTF-8, random strings up to 64 KiB as name/comment/archive comment through the "
         "seekable and streaming readers, random writer names; CPython codecs as oracle.",
-   note="Trusted: Coq kernel, translator (table), extraction+driver, harness; String::from_utf8_lossy is modelled (Spec/Utf8.v) and compared with std on every case. Raw-name preservation is observed by the correspondence run (reader theorem pending).",
+   note="Trusted: Coq kernel, translator (table), extraction+driver, harness; String::from_utf8_lossy is modelled (Spec/Utf8.v) and compared with std on every case. Reader side: C19_reader_decodes_by_flag -- for any bytes the reader parses as a central record, the raw name is the stored bytes and name and comment are their decoding by the record's own flag bit.",
    technique="Coq proof (finite sweeps lifted by induction) over source-translated table + differential correspondence",
    design="8 (C19)"),
  "C07": dict(
